@@ -446,6 +446,175 @@ fn imported_one(rel: u8, with_list: bool) -> Vec<(String, String)> {
     }
 }
 
+// ------------------------------------------------------------------------------------------
+// Overlapping ceremonies on a shared store (the shipped tokio lock wrappers): while one client's
+// registration is suspended inside a store call - holding the lock - another client reads the
+// store's capability, registers, or asks getInfo.  Under EVERY interleaving each ceremony obeys the
+// same table as when it runs alone: the capability a ceremony sees is the store's, not a guess made
+// because the store was busy.
+#[derive(Clone, Debug)]
+enum OvOut {
+    Registered { id: Vec<u8>, cred_props: Option<bool> },
+    Failed(String),
+    Info { rk: bool },
+}
+fn overlap_one(cap: u8, lock: u8, a: u8, b: u8, bound: Option<usize>, cap_schedules: u64) -> (Vec<(String, String)>, u64, bool) {
+    use crate::core::exec::{self, End, Task};
+    use std::cell::RefCell;
+    use std::rc::Rc;
+    type Results = Rc<RefCell<Vec<Option<OvOut>>>>;
+    let capv = cap_of(cap);
+    let build = || -> (Vec<Task>, Results, Box<dyn Fn() -> Vec<Rec>>) {
+        let mut rs = RefStore::with(vec![]);
+        rs.cap = capv;
+        let inner = Yielding { inner: rs, before: 1, after: 1 };
+        let results: Results = Rc::new(RefCell::new(vec![None, None]));
+        macro_rules! tasks_for {
+            ($shared:expr) => {{
+                let shared = $shared;
+                let mut tasks: Vec<Task> = vec![];
+                for (i, what) in [a, b].into_iter().enumerate() {
+                    let store = shared.clone();
+                    let results = results.clone();
+                    tasks.push(Box::pin(async move {
+                        let mut uv = ScriptedUv::consenting(Log::new());
+                        uv.yields = 1;
+                        let auth = Authenticator::new(Aaguid::new_empty(), store, uv);
+                        let out = if what == 0 {
+                            let info = auth.get_info().await;
+                            OvOut::Info { rk: info.options.as_ref().map_or(false, |o| o.rk) }
+                        } else {
+                            let mut client = Client::new(auth);
+                            let selection = Some(webauthn::AuthenticatorSelectionCriteria {
+                                authenticator_attachment: None,
+                                resident_key: Some(match what {
+                                    2 => RK::Discouraged,
+                                    3 => RK::Preferred,
+                                    _ => RK::Required,
+                                }),
+                                require_resident_key: false,
+                                user_verification: Default::default(),
+                            });
+                            let extensions = Some(webauthn::AuthenticationExtensionsClientInputs { cred_props: Some(true), prf: None, prf_already_hashed: None });
+                            let opts = creation_options(Reg { selection, extensions, user_id: vec![7, i as u8], ..Default::default() });
+                            let origin = url::Url::parse("https://example.com").unwrap();
+                            match client.register(&origin, opts, DefaultClientData).await {
+                                Ok(c) => OvOut::Registered { id: c.raw_id.to_vec(), cred_props: c.client_extension_results.cred_props.as_ref().and_then(|p| p.discoverable) },
+                                Err(e) => OvOut::Failed(format!("{e:?}")),
+                            }
+                        };
+                        results.borrow_mut()[i] = Some(out);
+                    }));
+                }
+                let s2 = shared.clone();
+                (tasks, results.clone(), Box::new(move || s2.try_lock_recs()) as Box<dyn Fn() -> Vec<Rec>>)
+            }};
+        }
+        if lock == 0 {
+            tasks_for!(std::sync::Arc::new(tokio::sync::Mutex::new(inner)))
+        } else {
+            tasks_for!(std::sync::Arc::new(tokio::sync::RwLock::new(inner)))
+        }
+    };
+    let mut found: std::collections::BTreeMap<String, String> = Default::default();
+    let current: RefCell<Option<(Results, Box<dyn Fn() -> Vec<Rec>>)>> = RefCell::new(None);
+    let horizon = 2000;
+    let supports = capv != Cap::OnlyNonDiscoverable;
+    let st = exec::explore(
+        || {
+            let (tasks, results, store) = build();
+            *current.borrow_mut() = Some((results, store));
+            tasks
+        },
+        bound,
+        horizon,
+        cap_schedules,
+        |ex| {
+            let cur = current.borrow();
+            let (results, store) = cur.as_ref().unwrap();
+            if ex.end != End::AllDone {
+                found.entry("overlap-does-not-finish".into()).or_insert_with(|| format!("{:?}; schedule {:?}", ex.end, ex.trace));
+                return;
+            }
+            let recs = store();
+            for (i, what) in [a, b].into_iter().enumerate() {
+                let out = results.borrow()[i].clone();
+                let mut bad = |kind: &str, d: String| {
+                    found.entry(kind.to_string()).or_insert_with(|| format!("{d}; ceremony #{i} of [{}, {}] on a {:?} store behind {}; schedule {:?}", ov_name(a), ov_name(b), capv, if lock == 0 { "Arc<Mutex>" } else { "Arc<RwLock>" }, ex.trace));
+                };
+                match (what, out) {
+                    (_, None) => bad("overlap-no-result", "the ceremony ended without a result".into()),
+                    (0, Some(OvOut::Info { rk })) => {
+                        if rk != supports {
+                            bad("getinfo-rk-untruthful", format!("getInfo reports rk={rk} while the store's capability gives rk={supports}"));
+                        }
+                    }
+                    (0, Some(o)) => bad("overlap-no-result", format!("{o:?}")),
+                    (w, Some(o)) => {
+                        let rk = match w {
+                            2 => false,
+                            3 => supports,
+                            _ => true,
+                        };
+                        let refuse = rk && capv == Cap::OnlyNonDiscoverable;
+                        match o {
+                            OvOut::Registered { id, cred_props } => {
+                                if refuse {
+                                    bad("required-rk-not-refused", "resident key required on a store that only holds non-discoverable credentials, yet the registration succeeded".into());
+                                }
+                                match recs.iter().find(|r| r.id == id) {
+                                    None => bad("nothing-stored", "successful registration is not in the store".into()),
+                                    Some(rec) => {
+                                        if !refuse && rec.handle.is_some() != capv.discoverable(rk) {
+                                            bad("user-handle-storage", format!("rk={rk}: discoverable should be {} but the record stores handle={}", capv.discoverable(rk), rec.handle.is_some()));
+                                        }
+                                        match cred_props {
+                                            Some(v) if v != rec.handle.is_some() => bad("cred-props-untruthful", format!("credProps.rk = {v} but the stored credential is discoverable = {}", rec.handle.is_some())),
+                                            None => bad("cred-props-missing", "credProps requested but absent".into()),
+                                            _ => {}
+                                        }
+                                    }
+                                }
+                            }
+                            OvOut::Failed(e) => {
+                                if !refuse {
+                                    bad("unexpected-failure", format!("registration failed ({e}) although the capability admits the request"));
+                                }
+                            }
+                            OvOut::Info { .. } => {}
+                        }
+                    }
+                }
+            }
+        },
+    );
+    match st {
+        Ok(st) => (found.into_iter().map(|(k, d)| (k, d)).collect(), st.schedules, st.capped),
+        Err(e) => (vec![("overlap-machinery".into(), e)], 0, false),
+    }
+}
+fn ov_name(w: u8) -> &'static str {
+    match w {
+        0 => "getInfo",
+        2 => "register(discouraged)",
+        3 => "register(preferred)",
+        _ => "register(required)",
+    }
+}
+trait TryLockRecs {
+    fn try_lock_recs(&self) -> Vec<Rec>;
+}
+impl TryLockRecs for std::sync::Arc<tokio::sync::Mutex<Yielding<RefStore>>> {
+    fn try_lock_recs(&self) -> Vec<Rec> {
+        self.try_lock().map(|g| g.inner.recs()).unwrap_or_default()
+    }
+}
+impl TryLockRecs for std::sync::Arc<tokio::sync::RwLock<Yielding<RefStore>>> {
+    fn try_lock_recs(&self) -> Vec<Rec> {
+        self.try_read().map(|g| g.inner.recs()).unwrap_or_default()
+    }
+}
+
 pub fn run(ctx: &Ctx) -> Result<Run, String> {
     let cs = cases();
     let stats = par::sweep_cases(&cs, ctx.threads, |c, st| {
@@ -463,10 +632,27 @@ pub fn run(ctx: &Ctx) -> Result<Run, String> {
             }
         }
     }
+    let mut schedules = 0u64;
+    let mut capped = false;
+    for cap in 0..3u8 {
+        for lock in 0..2u8 {
+            for (a, b) in [(4u8, 4u8), (4, 3), (3, 3), (3, 2), (4, 0), (3, 0), (2, 4)] {
+                stats.case(&("overlap", cap, lock, a, b), true, "overlapping-ceremonies");
+                let (fs, n, c) = overlap_one(cap, lock, a, b, ctx.tier.pick(Some(3), None), 400_000);
+                schedules += n;
+                capped |= c;
+                for (k, d) in fs {
+                    stats.finding(Finding::new(format!("level=client/overlap/kind={k}"), d, json!({"overlap": {"cap": cap, "lock": lock, "a": a, "b": b}})));
+                }
+            }
+        }
+    }
+    stats.count("overlap_schedules", schedules);
+    stats.count("overlap_schedule_cap_hit", u64::from(capped));
     let n = cs.len() as u64;
     let mut run = Run::from_stats(
         "model_checking",
-        "complete product store capability(3) x residentKey{no selection, absent, discouraged, preferred, required} x requireResidentKey(2) x authenticatorAttachment{absent, platform, cross-platform} x user-verification capability of the authenticator {configured, unconfigured, none} x credProps{absent,false,true} x authenticator configuration {no hmac-secret, UV-only, with non-UV secret, with evaluation at creation} x prf input {absent, empty, eval, pre-hashed only, both} x counters on/off, the store handed over bare / inside Arc<Mutex> / Arc<RwLock> / Mutex (the shipped lock wrappers), on a fresh authenticator and on one that earlier answered getInfo / registered while the store had another capability, from the web origin and from an Android app origin, and with every dotted host-like string constant of the client's sources (and www.<it>, x<it>) as relying party where the client accepts it, through Client::register + Client::authenticate, plus capability(3) x rk(2) through Authenticator::make_credential; imported credentials whose user handle equals / prefixes / extends / reverses the credential id, equals the RP ID bytes or is empty return exactly that handle; each configuration runs a registration and two assertions with the new credential (default requirement with a verified user; verification discouraged with a present but unverified user); every configuration is non-trivial (it reaches save_credential or the required-rk refusal)",
+        "complete product store capability(3) x residentKey{no selection, absent, discouraged, preferred, required} x requireResidentKey(2) x authenticatorAttachment{absent, platform, cross-platform} x user-verification capability of the authenticator {configured, unconfigured, none} x credProps{absent,false,true} x authenticator configuration {no hmac-secret, UV-only, with non-UV secret, with evaluation at creation} x prf input {absent, empty, eval, pre-hashed only, both} x counters on/off, the store handed over bare / inside Arc<Mutex> / Arc<RwLock> / Mutex (the shipped lock wrappers), on a fresh authenticator and on one that earlier answered getInfo / registered while the store had another capability, from the web origin and from an Android app origin, and with every dotted host-like string constant of the client's sources (and www.<it>, x<it>) as relying party where the client accepts it, through Client::register + Client::authenticate, plus capability(3) x rk(2) through Authenticator::make_credential; overlapping ceremonies: every interleaving (quick: up to 3 preemptions) of two clients - registrations with residentKey required / preferred / discouraged and credProps, or getInfo - sharing a store of each capability behind Arc<Mutex> and Arc<RwLock> whose calls suspend while the lock is held: each ceremony obeys the same table as alone; imported credentials whose user handle equals / prefixes / extends / reverses the credential id, equals the RP ID bytes or is empty return exactly that handle; each configuration runs a registration and two assertions with the new credential (default requirement with a verified user; verification discouraged with a present but unverified user); every configuration is non-trivial (it reaches save_credential or the required-rk refusal)",
         true,
         stats,
     );
@@ -476,6 +662,10 @@ pub fn run(ctx: &Ctx) -> Result<Run, String> {
 }
 
 pub fn replay(_ctx: &Ctx, case: &Value) -> Result<Vec<Finding>, String> {
+    if let Some(o) = case.get("overlap") {
+        let g = |k: &str| o[k].as_u64().unwrap_or(0) as u8;
+        return Ok(overlap_one(g("cap"), g("lock"), g("a"), g("b"), None, 400_000).0.into_iter().map(|(k, d)| Finding::new(format!("level=client/overlap/kind={k}"), d, case.clone())).collect());
+    }
     if let Some(i) = case.get("imported") {
         return Ok(imported_one(i["rel"].as_u64().unwrap_or(0) as u8, i["with_list"].as_bool().unwrap_or(false)).into_iter().map(|(k, d)| Finding::new(format!("level=client/kind={k}"), d, case.clone())).collect());
     }
